@@ -376,13 +376,13 @@ def check_bad_sig(case, ctx):
 
 SUBS = [
     Sub("workflow_orders", check_flow, strategy=lambda tier: flow_cases(), stateful=True,
-        budget={"quick": 130, "thorough": 6000},
+        budget={"quick": 90, "thorough": 6000},
         required=["kind:" + k for k in KINDS] + ["enough_signers", "too_few_signers", "more_than_m_signers",
                                                  "unknown_pairs", "global_xpubs", "segwit_flag",
                                                  "combine_pair"],
         nontrivial_rule="n >= 2 with at least two signers, or injected unknown key-value pairs"),
     Sub("bad_partial_sig_rejected", check_bad_sig, strategy=lambda tier: flow_cases(),
-        budget={"quick": 110, "thorough": 5000},
+        budget={"quick": 60, "thorough": 5000},
         required=["bad:" + b for b in ("foreign_key_sig", "other_digest_sig", "flip_der_byte", "swap_sigs",
                                        "truncate_sig")]),
 ]
